@@ -231,7 +231,7 @@ Section WithEnv.
   Definition load (el : elfio) (kind : skind) (content : bytes) (lazy : bool)
     : res (elfio * bool * list N) :=
     let el0 := with_segs (with_secs el []) [] in
-    let st0 := mkIstream kind content false 0 in
+    let st0 := open_istream kind content in
     let t := el_xlat el in
     let st1 := seekg st0 (xlat_apply t 0%Z) in
     let '(st2, ident) := read st1 16 in
